@@ -91,7 +91,7 @@ META = {
     'models': ['M1'],
 }
 
-SIGNATURES = {}     # filled after the predicate is defined (end of module)
+SIGNATURES = {}
 
 _HERE = os.path.dirname(os.path.abspath(__file__))
 _PROPS_LEAN = os.path.join(os.path.dirname(os.path.dirname(_HERE)), 'lean', 'DoitModel', 'Props', 'C08.lean')
@@ -129,7 +129,7 @@ def _fill_level():
         'stays a def) and are covered by K1 + P only; values/results/target files are not part of the run model (their '
         'equality across runners is the differential monitor P plus data_intact for the queue crossing).  Monitor (P): '
         'Lean predicate monC08Pair for reports+exit through the driver; the data/DB/file comparison is a Python equality '
-        'on canonical JSON.  Open finding stale-delayed-group-result (result_dep on a delayed-created group).  Trusted: '
+        'on canonical JSON.  Trusted: '
         'Lean kernel (propext/Classical.choice/Quot.sound), doitdrv, the Python harness, pickle itself, OS process '
         'scheduling (sampled).')
 
@@ -598,7 +598,8 @@ def diff_summaries(ref, got):
 
 
 def sig_stale_group_result(w):
-    """open finding stale-delayed-group-result.  A task X that takes getargs / result_dep from a GROUP created by a
+    """FIXED finding stale-delayed-group-result (/repo 083cb7a; no longer a signature, only used to label a regression
+    in the distribution).  A task X that takes getargs / result_dep from a GROUP created by a
     delayed creator: when X's get_status runs before the group exists (parallel runners look ahead; the serial runner
     only when X is defined first), result_dep keeps the placeholder task and computes/saves `_result:<group>` = null.
     Recognised: every difference is confined to such consumers X and is either (a) a `_result:<group>` entry that is
@@ -634,6 +635,31 @@ def sig_stale_group_result(w):
             if str(path[-1])[len('_result:'):] not in dgroups or 'null' not in (a, b):
                 return False
     return True
+
+
+def sig_premature_group_status(w):
+    """open finding premature-status-delayed-group (what 083cb7a does not cover).  DB pre-state from a complete run; a
+    task X takes getargs / result_dep from a GROUP made by a delayed creator; one of the two runs evaluates
+    get_status(X) before the group exists (the parallel runners look ahead while the creator's trigger executes; the
+    serial runner when X is defined before the group), compares the saved dict of sub-task results with the result of
+    the placeholder (None) and re-executes X, the other run finds X up-to-date.  Recognised: the case has a pre-run, the
+    ONLY differences are the report of such consumers X (skip_uptodate on one side, success on the other) and the
+    reporter-visible data of that execution; DB dump, files, exit code and every other task agree."""
+    case = w.get('case') or {}
+    if case.get('fam') != 'B' or not case.get('prerun') or not w.get('diff'):
+        return False
+    dgroups = set(t['group'] for t in case['tasks'] if t['kind'] == 'sub' and t.get('delayed'))
+    consumers = set(str(i) for i, t in enumerate(case['tasks'])
+                    if any(g[1] in dgroups for g in t['getargs']) or any(r in dgroups for r in t['result_dep']))
+    reexec = set()
+    for d in w['diff']:
+        if d[0] == 'reports':
+            if d[1] not in consumers or sorted([str(d[2]), str(d[3])]) != ['skip_uptodate', 'success']:
+                return False
+            reexec.add(d[1])
+    if not reexec:
+        return False
+    return all(d[0] == 'reports' or (d[0] == 'data' and d[1] in reexec) for d in w['diff'])
 
 
 def variant(case, runner, nproc, policy=None, schedule=None):
@@ -778,9 +804,11 @@ def eval_group(case, variants, st, shrink_s=8.0, accept=True):
                                                  'schedule': o.get('schedule')},
                'diff': d[:12], 'serial': {'exit': ref['exit'], 'reports': ref['reports']},
                'parallel': {'exit': s['exit'], 'err': o['err'], 'reports': s['reports'], 'stderr': o.get('stderr', '')[-300:]}}
-        if sig_stale_group_result(wit):
-            st.count('known:stale-delayed-group-result')
-        elif shrink_s - spent > 1.0 and len(st.violations) < 2:
+        if sig_premature_group_status(wit):
+            st.count('known:premature-status-delayed-group')
+        elif sig_stale_group_result(wit):
+            st.count('regression:stale-delayed-group-result')      # fixed finding F-C08 (083cb7a): a plain violation again
+        if not sig_premature_group_status(wit) and shrink_s - spent > 1.0 and len(st.violations) < 2:
             t0 = time.time()
             small = shrink_pair(base, c, d, shrink_s - spent)
             spent += time.time() - t0
@@ -1362,4 +1390,6 @@ def replay(ctx, data):
     return not d
 
 
-SIGNATURES['stale-delayed-group-result'] = sig_stale_group_result
+
+
+SIGNATURES['premature-status-delayed-group'] = sig_premature_group_status
